@@ -165,6 +165,35 @@ fn scenario(sc: &Sc, rep: &Report) -> Result<(), String> {
     let mut long_gaps_left = 2;
     sleep_ms(30);
     for _ in 0..sc.cycles {
+        if rng.chance(1, 5) {
+            // both pools paused at the same time, resumed one after the other: the RESUME of one
+            // pool releases that pool's clients only
+            let order = if rng.chance(1, 2) { ["db,u1", "db2,u1"] } else { ["db2,u1", "db,u1"] };
+            let mut t_ps = vec![];
+            for sc_ in order.iter() {
+                let (_, _, msgs) = admin_query(&mut adm, &format!("PAUSE {}", sc_))?;
+                if crate::wire::first_error(&msgs).is_some() {
+                    return Err(format!("PAUSE failed: {}", crate::wire::summarize(&msgs)));
+                }
+                t_ps.push(now_ns());
+            }
+            sleep_ms(rng.range(10, 40));
+            for (k, sc_) in order.iter().enumerate() {
+                let t_r = now_ns();
+                let (_, _, msgs) = admin_query(&mut adm, &format!("RESUME {}", sc_))?;
+                let t_rr = now_ns();
+                if crate::wire::first_error(&msgs).is_some() {
+                    return Err(format!("RESUME failed: {}", crate::wire::summarize(&msgs)));
+                }
+                cycles.push(Cycle { t_p: t_ps[k], t_r, t_rr, scope: sc_.to_string() });
+                if k == 0 {
+                    sleep_ms(rng.range(30, 80));
+                }
+            }
+            rep.count("overlapping_pauses_of_two_pools", 1);
+            std::thread::sleep(std::time::Duration::from_micros(rng.below(20_000) + 1));
+            continue;
+        }
         let scope = match rng.below(3) {
             0 => "".to_string(),
             1 => " db,u1".to_string(),
